@@ -1,4 +1,5 @@
 import ITree.Props.Arena
+import ITree.Props.C02
 import ITree.Lemmas.ArenaStack
 /-!
 # The traversal of `create_ordered_list` as written (explicit stack) — C07, C10
@@ -62,5 +63,44 @@ example : (((Arena.new 0 (⟨0, 0, 0⟩ : Ent Nat)).kInsert ⟨2, 1, 20⟩ 0).bi
     (a.kInsert ⟨3, 1, 30⟩ 0).bind fun a => (a.kExport 5).bind fun x => x.1.exportStack) = some [10] := by decide
 example : (((Arena.new 0 (⟨0, 0, 0⟩ : Ent Nat)).kInsert ⟨2, 9, 20⟩ 0).bind fun a => (a.kInsert ⟨1, 10, 10⟩ 0).bind fun a =>
     (a.kInsert ⟨3, 9, 30⟩ 0).bind fun a => a.exportStack) = some [10, 20, 30] := by decide
+
+/-- the same traversal recording the greatest stack length it reaches -/
+def Arena.exportStackD (a : Arena V) : Option (List V × Nat) :=
+  if a.root == EMPTY then some ([], 0)
+  else (a.stackNode a.root).bind fun s => Arena.exportLoopD (3 * a.nodes.size + 2) a [s] [] 0
+
+/-- **the auxiliary stack of the export stays as shallow as the tree**: on an arena representing a red-black tree
+with `n` entries the explicit stack never holds more than `height ≤ 2·log2(n+1) + 1` frames (C19: the export's working
+memory, not only its result, is proportional — in fact logarithmic; C02 gives the height bound). A fixed-size stack
+of that many frames would suffice; the code's `Vec` never needs to grow beyond it. -/
+theorem arena_export_stack_depth {a : Arena V} {st : St V} (h : RepSt a st) (hw : WF st) (hsize : a.nodes.size ≤ EMPTY) :
+    ∃ depth, a.exportStackD = some (valsOf st.tree, depth) ∧ depth ≤ 2 * Nat.log2 (st.tree.size + 1) + 1 := by
+  obtain ⟨n, hbal⟩ := hw.bal
+  have hh := C02_height_bound hbal
+  have hsz := h.size_le hw.slots
+  have hr := h.tree
+  cases ht : st.tree with
+  | leaf =>
+    rw [ht] at hr
+    have : a.root = EMPTY := hr
+    exact ⟨0, by simp [Arena.exportStackD, this, valsOf_leaf], by omega⟩
+  | node c l s e r =>
+    rw [ht] at hr hh hsz
+    obtain ⟨k, hk, hloop⟩ := exportLoopD_subtree hsize (.node c l s e r) a.root EMPTY hr (by simp)
+    obtain ⟨hs, nn, hn, _⟩ := hr
+    have hn' : a.node a.root = some nn := by rw [hs]; exact hn
+    have hne : (a.root == EMPTY) = false := by
+      have := node_lt hn'; simp; unfold EMPTY at hsize ⊢; omega
+    refine ⟨(T.node c l s e r).height, ?_, hh⟩
+    have hfuel : 3 * a.nodes.size + 2 = (3 * a.nodes.size + 2 - k) + k := by omega
+    simp only [Arena.exportStackD, hne, Bool.false_eq_true, if_false, Arena.stackNode, hn', Option.map_some, Option.bind_some]
+    rw [hfuel, hloop nn hn' _ [] [] 0]
+    have : 3 * a.nodes.size + 2 - k = (3 * a.nodes.size + 1 - k) + 1 := by omega
+    rw [this]
+    simp [Arena.exportLoopD]
+
+/-! non-vacuity: seven keys inserted in ascending order by the pointer code: the walk needs a stack of 4 frames -/
+example : ((([0, 1, 2, 3, 4, 5, 6] : List Nat).foldlM (fun (a : Arena Nat) (k : Nat) => a.kInsert ⟨(k : Int), 9, 10 * k⟩ 0) (Arena.new 0 ⟨0, 0, 0⟩)).bind
+    fun a => a.exportStackD) = some ([0, 10, 20, 30, 40, 50, 60], 4) := by decide
 
 end ITree
